@@ -12,6 +12,7 @@ def run(chk):
     a64common.rule_vbe(chk, A, "C14.b")
     a64common.rule_imm(chk, A)
     a64common.rule_validators(chk, A)
+    a64common.rule_mem_index(chk, A)
     # C14.c R-EMIT-ATOMIC on the two assemblers
     RA = "R-EMIT-ATOMIC"
     chk.rule(RA, "emit functions: success exits reset state and commit bytes, failing exits clear state first, nothing fails after "
